@@ -274,7 +274,37 @@ def imports_of(text):
 
 
 class FakeChannel:
-    pass
+    """Stands in for grpclib.client.Channel: a stub method is observed through the PUBLIC call it makes when
+    it is opened -- channel.request(name, cardinality, request_type, reply_type, timeout=, metadata=) -- so
+    that no private attribute of the method classes is needed."""
+
+    def request(self, *args, **kwargs):
+        return ('opened', args, kwargs)
+
+
+def observe_method(mobj, ch):
+    """(route, Cardinality or None, request_type, reply_type, on-the-channel?) of a stub attribute, taken
+    from what it hands to channel.request() when opened; falls back to its public attributes"""
+    route = getattr(mobj, 'name', '?')
+    req = getattr(mobj, 'request_type', None)
+    rep = getattr(mobj, 'reply_type', None)
+    card = None
+    on_channel = getattr(mobj, 'channel', None) is ch
+    try:
+        opened = mobj.open()
+        if isinstance(opened, tuple) and len(opened) == 3 and opened[0] == 'opened':
+            on_channel = True
+            args, kwargs = list(opened[1]), dict(opened[2])
+            names = ['name', 'cardinality', 'request_type', 'reply_type']
+            vals = dict(zip(names, args))
+            vals.update({k: v for k, v in kwargs.items() if k in names})
+            route = vals.get('name', route)
+            card = vals.get('cardinality')
+            req = vals.get('request_type', req)
+            rep = vals.get('reply_type', rep)
+    except BaseException:  # noqa
+        pass
+    return route, card, req, rep, on_channel
 
 
 def exec_generated(reg, name, text):
@@ -341,17 +371,17 @@ def exec_generated(reg, name, text):
                 stub = v(ch)
                 rows = []
                 for a, mobj in vars(stub).items():
-                    card = getattr(type(mobj), '_cardinality', None)
+                    route, card, req, rep, on_channel = observe_method(mobj, ch)
+                    is_card = isinstance(card, grpclib.const.Cardinality)
                     rows.append({
                         'attr': a, 'cls': type(mobj).__name__,
                         'cls_module': type(mobj).__module__,
-                        'card': card.name if isinstance(card, grpclib.const.Cardinality) else '?',
-                        'flags': [bool(card.client_streaming), bool(card.server_streaming)]
-                        if isinstance(card, grpclib.const.Cardinality) else None,
-                        'route': getattr(mobj, 'name', '?'),
-                        'channel': getattr(mobj, 'channel', None) is ch,
-                        'req': describe(reg, getattr(mobj, 'request_type', None)),
-                        'rep': describe(reg, getattr(mobj, 'reply_type', None))})
+                        'card': card.name if is_card else '?',
+                        'flags': [bool(card.client_streaming), bool(card.server_streaming)] if is_card else None,
+                        'route': route,
+                        'channel': on_channel,
+                        'req': describe(reg, req),
+                        'rep': describe(reg, rep)})
                 c['stub'] = rows
             except BaseException as e:  # noqa
                 c['stub'] = 'raised:' + type(e).__name__
